@@ -1070,6 +1070,42 @@ func (ex *Exec) rtMethod(t types.Type, name string, args []Value) (Value, bool) 
 			ex.gopanic("reflect: Field index out of bounds")
 		}
 		return ex.structField(u, i), true
+	case "FieldByName":
+		u, ok := under(t).(*types.Struct)
+		if !ok {
+			ex.gopanic("reflect: FieldByName of non-struct type " + rtypeString(t))
+		}
+		name := ex.concString(args[0].(*StrV))
+		var pkg *types.Package
+		if u.NumFields() > 0 {
+			pkg = u.Field(0).Pkg()
+		}
+		obj, index, _ := types.LookupFieldOrMethod(t, true, pkg, name)
+		fv, isVar := obj.(*types.Var)
+		if !isVar || !fv.IsField() || len(index) == 0 {
+			return TupleV{ex.zero(ex.W.structFieldT, 0), falseT}, true
+		}
+		// walk to the struct that declares the field (through embedded structs and pointers to them)
+		st := u
+		for _, i := range index[:len(index)-1] {
+			ft := st.Field(i).Type()
+			if p, isPtr := under(ft).(*types.Pointer); isPtr {
+				ft = p.Elem()
+			}
+			st = under(ft).(*types.Struct)
+		}
+		sv := ex.structField(st, index[len(index)-1]).(*StructV)
+		ust := under(ex.W.structFieldT).(*types.Struct)
+		for j := 0; j < ust.NumFields(); j++ {
+			if ust.Field(j).Name() == "Index" {
+				ts := make([]*Term, len(index))
+				for k, i := range index {
+					ts[k] = i64(int64(i))
+				}
+				sv.F[j].V = ex.sliceFromTerms(types.Typ[types.Int], ts)
+			}
+		}
+		return TupleV{sv, trueT}, true
 	case "Comparable":
 		return mkBool(types.Comparable(t)), true
 	case "Size":
